@@ -1,0 +1,63 @@
+// SPDX-FileCopyrightText: 2026 The Pion community <https://pion.ly>
+// SPDX-License-Identifier: MIT
+
+//go:build verif
+
+// Contracts (comment-only) for property C18: gathering produces exactly the
+// candidates the configuration allows (filters, port window, cycle control).
+
+package ice
+
+//@ noeffect ice.Agent.gatherCandidateCancel
+
+//@ func isZeros
+//@   props C18
+//@   pure
+//@   loop 1 invariant all-zero-so-far: forall j int :: ip.off <= j && j <= ip.off + rangeindex ==> elems(ip)[j] == 0
+//@   loop 1 invariant index-in-range: rangeindex + 1 <= len(ip)
+//@   ensures true-only-if-all-zero: result ==> forall j int :: ip.off <= j && j < ip.off + len(ip) ==> elems(ip)[j] == 0
+//@   ensures false-only-if-some-nonzero: !result ==> exists j int :: ip.off <= j && j < ip.off + len(ip) && elems(ip)[j] != 0
+
+// IPv4-compatible (first 12 bytes zero) and site-local (fec0::/10) IPv6 addresses
+// are never candidates; anything that is not 16 bytes long is not IPv6.
+//@ func isSupportedIPv6Partial
+//@   props C18
+//@   pure
+//@   ensures needs-sixteen-bytes: len(ip) != 16 ==> !result
+//@   ensures rejects-ipv4-compatible: len(ip) == 16 && (forall j int :: ip.off <= j && j < ip.off + 12 ==> elems(ip)[j] == 0) ==> !result
+//@   ensures rejects-site-local: len(ip) == 16 && elems(ip)[ip.off] == 254 && (elems(ip)[ip.off + 1] / 64) % 4 == 3 ==> !result
+//@   ensures accepts-the-rest: len(ip) == 16 && (exists j int :: ip.off <= j && j < ip.off + 12 && elems(ip)[j] != 0) && !(elems(ip)[ip.off] == 254 && (elems(ip)[ip.off + 1] / 64) % 4 == 3) ==> result
+
+// Port window of sockets the agent opens itself: an explicit port is used as is;
+// otherwise every attempt uses a port inside [min or 1024, max or 65535] and the
+// search gives up after one full round.
+//@ func listenUDPInPortRange
+//@   props C18
+//@   requires lAddr != nil
+//@   requires 0 <= portMin && portMin <= 65535 && 0 <= portMax && portMax <= 65535
+//@   loop 1 invariant inside-the-window: portMin <= portCurrent && portCurrent <= portMax && portMin <= portStart && portStart <= portMax
+//@   site call ListenUDP#1 assert explicit-port-or-no-range-uses-the-address-as-is: arg1 == lAddr && (lAddr.Port != 0 || (portMin == 0 && portMax == 0))
+//@   site call ListenUDP#2 assert every-attempt-inside-the-window: arg1.Port == portCurrent && portMin <= portCurrent && portCurrent <= portMax && arg0 == network
+//@   site call ListenUDP#2 assert effective-window: (portMin0 == 0 ==> portMin == 1024) && (portMin0 != 0 ==> portMin == portMin0) && (portMax0 == 0 ==> portMax == 65535) && (portMax0 != 0 ==> portMax == portMax0)
+//@   ensures inverted-range-is-refused: old(lAddr.Port) == 0 && !(portMin == 0 && portMax == 0) && ite(portMin == 0, 1024, portMin) > ite(portMax == 0, 65535, portMax) ==> result0 == nil && err != nil
+
+// Cycle control (runs on the agent loop).
+//@ func (*Agent).GatherCandidates$1
+//@   props C18
+//@   ghostvar cancelledPrevious bool = false
+//@   site call gatherCandidateCancel#1 ghost cancelledPrevious := true
+//@   site call gatherCandidates#1 assert only-from-state-new-with-a-handler: old(a.gatheringState) == GatheringStateNew
+//@   site call gatherCandidates#1 assert previous-cycle-cancelled-first: cancelledPrevious
+//@   site call gatherCandidates#1 assert new-cycle-has-its-own-context-and-done-channel: arg1 == ctx && arg2 == done && a.gatherCandidateDone == done
+//@   ensures refused-once-the-state-left-new: old(a.gatheringState) != GatheringStateNew ==> gatherErr == ErrMultipleGatherAttempted && a.gatheringState == old(a.gatheringState) && a.gatherCandidateDone == old(a.gatherCandidateDone)
+
+//@ func (*Agent).gatherCandidates
+//@   props C18
+//@   site call gatherCandidatesInternal#1 assert gathers-only-if-the-cycle-was-admitted: applied && arg1 == ctx
+//@   site call setGatheringState#1 assert announces-gathering-first: arg1 == ctx && arg2 == GatheringStateGathering
+//@   site call setGatheringState#2 assert completes-with-the-same-cycle-context: arg1 == ctx && arg2 == GatheringStateComplete
+
+//@ func (*Agent).Restart$1
+//@   props C18 C06 C02
+//@   site call gatherCandidateCancel#1 assert cancels-the-running-cycle-first: true
+//@   ensures C18 back-to-new: a.gatheringState == GatheringStateNew
